@@ -261,6 +261,21 @@ CHECKS["C26"] = dict(
     technique="TLA+ transaction spec + TLC model checking + TLC trace validation of recorded real attempts",
     design_ref="DESIGN.md section 4 C26, F.10", engine="TransTxn")
 
+CHECKS["C23"] = dict(
+    level="model_checking",
+    text=("LFRicSched.tla: invoke bodies as Loop/Dir/Kern trees with kernel argument summaries (access x "
+          "function-space class), transformation alphabet Colour, OMPParallelLoop, OMPLoop, ACCLoop, "
+          "RedundantComp, OMPParallel, ACCParallel, ACCKernels (each Intended or Refuse); invariant ColourRule "
+          "(shared-DoF increments parallelised only over one colour; no colours loop inside a parallel "
+          "region) model-checked on a 15-kernel catalogue. TLC dumps every transition (depth 3 / 2); each is "
+          "replayed on REAL LFRic schedules (21 algorithm files, DM on/off) with the real transformations, "
+          "the generated PSy layer is itemised after each accepted step and TLC decides ColourRule and step "
+          "conformance per case (4 067 distinct cases)."),
+    note=("Trusted: the itemiser of generated Fortran. Code-generation refusals produce nothing and are not "
+          "judged. Two genuine defect shapes in findings.d/C23.json."),
+    technique="TLA+ schedule state machine + TLC-enumerated histories replayed on real schedules + TLC validation of generated code",
+    design_ref="DESIGN.md section 4 C23", engine="LFRicSched")
+
 NOT_YET = {}
 
 ALL = [f"C{i:02d}" for i in range(1, 30)]
